@@ -18,6 +18,9 @@ import (
 type GraphOpts struct {
 	MaxTypes  int
 	Recursion bool
+	// MixedRule: a list of alternatives (@A | @B) may also carry the rule type: "mixed", which
+	// says what the list already says (not used where the AST is compared)
+	MixedRule bool
 }
 
 type gctx struct {
@@ -376,6 +379,9 @@ func (c *gctx) valueNode(i int, self string, depth int, isProp bool, label strin
 			names = append(names, names[0]) // the same type named twice: @a | @b | @a
 		}
 		n = &ref.SNode{Kind: ref.SRef, Names: names}
+		if c.opts.MixedRule && c.draw(0, 5, label+"Mixed") == 0 {
+			n.Rules = append(n.Rules, StrRule("type", "mixed"))
+		}
 	case k == 6 && len(scal) > 0: // literal with {type: "@T"}
 		tn := rapid.SampledFrom(scal).Draw(c.t, label+"TT")
 		tt := c.g.Types[tn]
